@@ -38,22 +38,10 @@ pub struct Tc<'a> {
 	pub outcomes: Vec<bool>,
 	/// raw ops of the most recent successful acquisition call (C08 order monitor)
 	pub last_ops: Vec<RawRec>,
-	/// C10 PoisonModel, keyed by the lock id of a Poisonable leaf
-	pub pois: Option<PoisModel>,
+	/// leaf indices whose poison is cleared from inside the next critical section (C10)
+	pub clear_inside: Vec<usize>,
 	/// other managed threads run concurrently (Baton mode)
 	pub concurrent: bool,
-}
-
-#[derive(Default, Clone, Debug)]
-pub struct PoisModel {
-	/// lock id -> route of the panicking exclusive hold that makes poisoning mandatory
-	pub must: std::collections::HashMap<LockId, String>,
-	/// lock ids that may be poisoned (any panic during any hold since the last clear)
-	pub may: std::collections::HashSet<LockId>,
-	/// ids of Poisonable leaves
-	pub tracked: std::collections::HashSet<LockId>,
-	pub checks: u64,
-	pub poisoned_seen: u64,
 }
 
 pub fn expected_ids_member(a: &Arena, m: &MemberSpec, out: &mut Vec<LockId>) {
@@ -109,7 +97,7 @@ impl<'a> Tc<'a> {
 			fault_mode: false,
 			outcomes: Vec::new(),
 			last_ops: Vec::new(),
-			pois: None,
+			clear_inside: Vec::new(),
 			concurrent: false,
 		}
 	}
@@ -504,43 +492,8 @@ impl<'a> Tc<'a> {
 			}
 		}
 		// C10: poison verdict of every Poisonable position against the PoisonModel
-		if let Some(pm) = self.pois.as_mut() {
-			for (i, (_, verdict)) in flat.iter().enumerate() {
-				let lock = exp[i];
-				if !pm.tracked.contains(&lock) {
-					continue;
-				}
-				pm.checks += 1;
-				match verdict {
-					None => w.violate(
-						"C10",
-						"no_poison_verdict",
-						format!("{}: position {i} (poisonable lock {lock}) carries no Ok/Err verdict", acq_desc(acq)),
-					),
-					Some(p) => {
-						if *p {
-							pm.poisoned_seen += 1;
-						}
-						if let (Some(route), false) = (pm.must.get(&lock), *p) {
-							w.violate(
-								"C10",
-								"not_poisoned_after_panic",
-								format!(
-									"route={route}|{}: lock {lock} reports Ok although a panic unwound during an exclusive hold via {route}",
-									acq_desc(acq)
-								),
-							);
-						}
-						if *p && !pm.may.contains(&lock) {
-							w.violate(
-								"C10",
-								"spuriously_poisoned",
-								format!("{}: lock {lock} reports Err but no panic happened during a hold since the last clear", acq_desc(acq)),
-							);
-						}
-					}
-				}
-			}
+		for (i, (_, verdict)) in flat.iter().enumerate() {
+			w.pois_check(exp[i], *verdict, &acq_desc(acq));
 		}
 		// scheduling point inside the critical section
 		w.yield_point(tid);
@@ -573,19 +526,27 @@ impl<'a> Tc<'a> {
 				}
 			}
 		}
+		// C10: clear_poison while the hold is live
+		if !self.clear_inside.is_empty() {
+			let arena = self.arena;
+			for li in std::mem::take(&mut self.clear_inside) {
+				let id = arena.leaf_ids[li];
+				if !exp.contains(&id) {
+					continue;
+				}
+				match &arena.leaves[li] {
+					Leaf::PM(l) => l.clear_poison(),
+					Leaf::PR(l) => l.clear_poison(),
+					_ => {}
+				}
+				w.pois_clear(id);
+			}
+		}
 		if acq.panic {
 			self.stats.panics_injected += 1;
-			if let Some(pm) = self.pois.as_mut() {
-				let route = Self::label(acq);
-				for (i, (pay, _)) in flat.iter().enumerate() {
-					let lock = exp[i];
-					if pm.tracked.contains(&lock) {
-						pm.may.insert(lock);
-						if matches!(pay, Pay::Mut(_)) {
-							pm.must.entry(lock).or_insert_with(|| route.to_string());
-						}
-					}
-				}
+			let route = Self::label(acq);
+			for (i, (pay, _)) in flat.iter().enumerate() {
+				w.pois_panic(exp[i], matches!(pay, Pay::Mut(_)), route);
 			}
 			drop(exit);
 			resume_unwind(Box::new(InjectedPanic(tid)));
